@@ -1,14 +1,240 @@
 import Crv.Driver.Util
-/-! Line-protocol driver for stream `path` (stub: every op is `bad-op` until the model is wired in). -/
-namespace Crv.Driver.Path
+import Crv.Paths
+import Crv.Generated.Paths
+/-!
+Line-protocol driver for stream `path` (C20).
 
-/-- Model state carried between the lines of this stream. -/
+The theorems of `Crv.Props.C20` keep SHA-256 opaque; the driver instantiates it with an executable SHA-256 (below) so
+that the identifier functions of the model can be compared with the real ones end to end (the first `sha` lines of
+every run compare this implementation itself with `crypto/sha256`). The URL normaliser stays an oracle: the harness
+sends each raw string together with what `url.Parse(..).String()` made of it.
+
+Ops:
+  sha <hex>                                  → digest
+  id url <norm-hex|!>                        → 64-hex name | none
+  id file <name-hex>                         → 64-hex name
+  id cdp <raw-hex>:<norm-hex|!> …            → 64-hex name | none
+  tmp? <name-hex>                            → true|false      (sweep pattern)
+  normal? <name-hex>                         → true|false
+  join <wd-hex> <name-hex>                   → hex of filepath.Join
+  life init <disk|memory> <wd-hex> | life foreign <name-hex> <file|dir> | life provision <v> <urls> <files>
+  life hs <v> <id-hex> <origin> | life refresh <v> <id-hex> <origin> | life cleanup     → state line
+-/
+namespace Crv.Driver.Path
+open Crv.Paths Crv.Generated
+
+/-! ### SHA-256 (FIPS 180-4), driver only -/
+
+def shaK : Array UInt32 := #[
+  0x428a2f98, 0x71374491, 0xb5c0fbcf, 0xe9b5dba5, 0x3956c25b, 0x59f111f1, 0x923f82a4, 0xab1c5ed5,
+  0xd807aa98, 0x12835b01, 0x243185be, 0x550c7dc3, 0x72be5d74, 0x80deb1fe, 0x9bdc06a7, 0xc19bf174,
+  0xe49b69c1, 0xefbe4786, 0x0fc19dc6, 0x240ca1cc, 0x2de92c6f, 0x4a7484aa, 0x5cb0a9dc, 0x76f988da,
+  0x983e5152, 0xa831c66d, 0xb00327c8, 0xbf597fc7, 0xc6e00bf3, 0xd5a79147, 0x06ca6351, 0x14292967,
+  0x27b70a85, 0x2e1b2138, 0x4d2c6dfc, 0x53380d13, 0x650a7354, 0x766a0abb, 0x81c2c92e, 0x92722c85,
+  0xa2bfe8a1, 0xa81a664b, 0xc24b8b70, 0xc76c51a3, 0xd192e819, 0xd6990624, 0xf40e3585, 0x106aa070,
+  0x19a4c116, 0x1e376c08, 0x2748774c, 0x34b0bcb5, 0x391c0cb3, 0x4ed8aa4a, 0x5b9cca4f, 0x682e6ff3,
+  0x748f82ee, 0x78a5636f, 0x84c87814, 0x8cc70208, 0x90befffa, 0xa4506ceb, 0xbef9a3f7, 0xc67178f2]
+
+def shaInit : Array UInt32 := #[0x6a09e667, 0xbb67ae85, 0x3c6ef372, 0xa54ff53a, 0x510e527f, 0x9b05688c, 0x1f83d9ab, 0x5be0cd19]
+
+def rotr (x : UInt32) (n : UInt32) : UInt32 := (x >>> n) ||| (x <<< (32 - n))
+
+def shaPad (msg : List UInt8) : List UInt8 :=
+  let l := msg.length
+  let zeros := (119 - l % 64) % 64
+  let bits := l * 8
+  msg ++ [(0x80 : UInt8)] ++ List.replicate zeros (0 : UInt8) ++
+    (List.range 8).map (fun i => UInt8.ofNat ((bits >>> (8 * (7 - i))) % 256))
+
+def be32 (a b c d : UInt8) : UInt32 :=
+  (a.toUInt32 <<< 24) ||| (b.toUInt32 <<< 16) ||| (c.toUInt32 <<< 8) ||| d.toUInt32
+
+def blockWords : List UInt8 → List UInt32
+  | a :: b :: c :: d :: rest => be32 a b c d :: blockWords rest
+  | _ => []
+
+def schedule (w16 : Array UInt32) : Array UInt32 := Id.run do
+  let mut w := w16
+  for i in [16:64] do
+    let w15 := w[i - 15]!
+    let w2 := w[i - 2]!
+    let s0 := rotr w15 7 ^^^ rotr w15 18 ^^^ (w15 >>> 3)
+    let s1 := rotr w2 17 ^^^ rotr w2 19 ^^^ (w2 >>> 10)
+    w := w.push (w[i - 16]! + s0 + w[i - 7]! + s1)
+  return w
+
+def compress (h : Array UInt32) (block : List UInt8) : Array UInt32 := Id.run do
+  let w := schedule (blockWords block).toArray
+  let mut a := h[0]!
+  let mut b := h[1]!
+  let mut c := h[2]!
+  let mut d := h[3]!
+  let mut e := h[4]!
+  let mut f := h[5]!
+  let mut g := h[6]!
+  let mut hh := h[7]!
+  for i in [0:64] do
+    let s1 := rotr e 6 ^^^ rotr e 11 ^^^ rotr e 25
+    let ch := (e &&& f) ^^^ ((~~~ e) &&& g)
+    let t1 := hh + s1 + ch + shaK[i]! + w[i]!
+    let s0 := rotr a 2 ^^^ rotr a 13 ^^^ rotr a 22
+    let maj := (a &&& b) ^^^ (a &&& c) ^^^ (b &&& c)
+    let t2 := s0 + maj
+    hh := g; g := f; f := e; e := d + t1; d := c; c := b; b := a; a := t1 + t2
+  return #[h[0]! + a, h[1]! + b, h[2]! + c, h[3]! + d, h[4]! + e, h[5]! + f, h[6]! + g, h[7]! + hh]
+
+partial def shaBlocks (h : Array UInt32) (bs : List UInt8) : Array UInt32 :=
+  if bs.length < 64 then h else shaBlocks (compress h (bs.take 64)) (bs.drop 64)
+
+def sha256 (msg : List UInt8) : List UInt8 :=
+  let h := shaBlocks shaInit (shaPad msg)
+  h.toList.flatMap (fun (x : UInt32) => [(x >>> 24).toUInt8, (x >>> 16).toUInt8, (x >>> 8).toUInt8, x.toUInt8])
+
+/-! ### helpers -/
+
+def nameStr (n : Name) : String := toHex n
+
+def parseName (s : String) : Option Name := parseHex s
+
+def boolStr (b : Bool) : String := if b then "true" else "false"
+
+/-- insertion sort on names by their hex text (canonical listing order = byte order) -/
+def sortStrings (l : List String) : List String :=
+  l.foldl (fun acc x => (acc.takeWhile (· < x)) ++ x :: acc.dropWhile (· < x)) []
+
+def parseOrigin (s : String) : Option Origin :=
+  match s.splitOn ":" with
+  | ["down"] => some .down
+  | ["broken", tag, j, n] =>
+    match tag.toNat?, j.toNat?, n.toNat? with
+    | some t, some j, some n => some (.broken { tag := t, serials := (List.range n).map (· + 1), sigOk := true } j)
+    | _, _, _ => none
+  | ["doc", tag, n, sig] =>
+    match tag.toNat?, n.toNat?, parseBool sig with
+    | some t, some n, some ok => some (.doc { tag := t, serials := (List.range n).map (· + 1), sigOk := ok })
+    | _, _, _ => none
+  | _ => none
+
+def parseLocation (s : String) : Option Location :=
+  match s.splitOn "/" with
+  | [id, a, b] =>
+    match parseName id, parseOrigin a, parseOrigin b with
+    | some id, some a, some b => some { id := id, first := a, update := b }
+    | _, _, _ => none
+  | _ => none
+
+def parseLocations (s : String) : Option (List Location) :=
+  if s = "-" then some [] else mapOpt parseLocation (s.splitOn ",")
+
 structure State where
-  dummy : Unit := ()
+  sys : Sys := { disk := true, wd := [], fs := [] }
+  lastOk : Bool := true
 
 def init : State := {}
 
+def showState (s : Sys) (ok : Bool) : String :=
+  let ls := sortStrings (s.fs.map (fun e => nameStr e.1 ++ (match e.2 with | .file => ":f" | .dir _ => ":d")))
+  let hs := sortStrings (s.handles.map nameStr)
+  let loaded := sortStrings ((s.inst.entries.filter (·.2)).map (fun e => nameStr e.1))
+  "ok=" ++ boolStr ok ++ " ls=[" ++ ",".intercalate ls ++ "] handles=[" ++ ",".intercalate hs ++
+    "] reg=" ++ boolStr (s.wd ∈ s.registered) ++ " updater=" ++ boolStr s.inst.stop ++
+    " loaded=[" ++ ",".intercalate (if provisioned s then loaded else []) ++ "]"
+
+def stepLife (st : State) (ws : List String) : State × String :=
+  match ws with
+  | ["init", kind, wd] =>
+    match parseName wd with
+    | some wd =>
+      if kind = "disk" ∨ kind = "memory" then
+        let s : Sys := { disk := kind = "disk", wd := wd, fs := [] }
+        ({ sys := s, lastOk := true }, showState s true)
+      else (st, "bad-op")
+    | none => (st, "bad-op")
+  | ["foreign", n, kind] =>
+    match parseName n with
+    | some n =>
+      if kind = "file" ∨ kind = "dir" then
+        let s := stepEv pathFacts st.sys (.foreign n (if kind = "file" then .file else .dir []))
+        ({ st with sys := s }, showState s true)
+      else (st, "bad-op")
+    | none => (st, "bad-op")
+  | ["provision", v, urls, files] =>
+    match parseBool v, parseLocations urls, parseLocations files with
+    | some v, some urls, some files =>
+      let ok := (provision pathFacts v urls files st.sys).2
+      let s := stepEv pathFacts st.sys (.provision v urls files)
+      ({ sys := s, lastOk := ok }, showState s ok)
+    | _, _, _ => (st, "bad-op")
+  | ["cycle", v, urls, files] =>
+    -- Provision followed at once by Cleanup; only the settled state is reported
+    match parseBool v, parseLocations urls, parseLocations files with
+    | some v, some urls, some files =>
+      let s := stepEv pathFacts (stepEv pathFacts st.sys (.provision v urls files)) .cleanup
+      ({ sys := s, lastOk := true }, showState s true)
+    | _, _, _ => (st, "bad-op")
+  | ["hs", v, id, o] =>
+    match parseBool v, parseName id, parseOrigin o with
+    | some v, some id, some o =>
+      let s := stepEv pathFacts st.sys (.handshake v id o)
+      ({ st with sys := s }, showState s true)
+    | _, _, _ => (st, "bad-op")
+  | ["refresh", v, id, o] =>
+    match parseBool v, parseName id, parseOrigin o with
+    | some v, some id, some o =>
+      let s := stepEv pathFacts st.sys (.refresh v id o)
+      ({ st with sys := s }, showState s true)
+    | _, _, _ => (st, "bad-op")
+  | ["cleanup"] =>
+    let s := stepEv pathFacts st.sys .cleanup
+    ({ st with sys := s }, showState s true)
+  | _ => (st, "bad-op")
+
+def parseCdp (s : String) : Option (Name × Option Name) :=
+  match s.splitOn ":" with
+  | [raw, nrm] =>
+    match parseName raw with
+    | some raw => if nrm = "!" then some (raw, none) else (parseName nrm).map (fun n => (raw, some n))
+    | none => none
+  | _ => none
+
 /-- One line (already split into words, stream tag removed) → new state and the answer line. -/
-def step (s : State) (ws : List String) : State × String := (s, "bad-op")
+def step (s : State) (ws : List String) : State × String :=
+  match ws with
+  | ["sha", h] =>
+    match parseHex h with
+    | some bs => (s, toHex (sha256 bs))
+    | none => (s, "bad-op")
+  | ["id", "url", n] =>
+    if n = "!" then (s, "none") else
+    match parseName n with
+    | some n => (s, match urlId sha256 (fun x => some x) n with | some i => String.ofList (i.map (fun b => Char.ofNat b.toNat)) | none => "none")
+    | none => (s, "bad-op")
+  | ["id", "file", n] =>
+    match parseName n with
+    | some n => (s, String.ofList ((fileId sha256 n).map (fun b => Char.ofNat b.toNat)))
+    | none => (s, "bad-op")
+  | "id" :: "cdp" :: items =>
+    match mapOpt parseCdp items with
+    | some ps =>
+      -- the oracle for the normaliser: the table the harness sent (first match)
+      let norm : Name → Option Name := fun raw => match ps.find? (fun p => p.1 = raw) with | some p => p.2 | none => none
+      (s, match cdpId sha256 norm pathFacts (ps.map (·.1)) with
+          | some i => String.ofList (i.map (fun b => Char.ofNat b.toNat))
+          | none => "none")
+    | none => (s, "bad-op")
+  | ["tmp?", n] =>
+    match parseName n with
+    | some n => (s, boolStr (matchesTemp pathFacts n))
+    | none => (s, "bad-op")
+  | ["normal?", n] =>
+    match parseName n with
+    | some n => (s, boolStr (decide (normalComponent n)))
+    | none => (s, "bad-op")
+  | ["join", a, b] =>
+    match parseName a, parseName b with
+    | some a, some b => (s, toHex (join a b).render)
+    | _, _ => (s, "bad-op")
+  | "life" :: rest => stepLife s rest
+  | _ => (s, "bad-op")
 
 end Crv.Driver.Path
